@@ -4,6 +4,7 @@ import (
 	"encoding/binary"
 	"fmt"
 	"runtime"
+	"sort"
 	"strconv"
 	"strings"
 
@@ -33,7 +34,16 @@ func checkBuildTotal(c *enumx.Ctx, desc string, r rule.Rule, inputSize int) {
 	c.Try("C13 Build", func() {
 		var w rule.WireFormat
 		var err error
+		before := fmt.Sprintf("%#v", deref(r))
 		n := allocMeter(func() { w, err = rule.Build(r) })
+		if after := fmt.Sprintf("%#v", deref(r)); after != before {
+			c.Report("C13 build-modifies-input", fmt.Sprintf("Build(%s) modified the Rule it was given: %s -> %s", desc, trunc(before), trunc(after)), nil)
+			return
+		}
+		if w2, err2 := rule.Build(r); (err2 == nil) != (err == nil) || string(w2) != string(w) {
+			c.Report("C13 build-not-repeatable", fmt.Sprintf("Build(%s) twice gave (%d bytes, %v) then (%d bytes, %v)", desc, len(w), err, len(w2), err2), nil)
+			return
+		}
 		if (w == nil) == (err == nil) {
 			c.Report("C13 build-value-xor-error", fmt.Sprintf("Build(%s) = (%d bytes, %v): want wire data xor error", desc, len(w), err), nil)
 			return
@@ -52,6 +62,24 @@ func checkBuildTotal(c *enumx.Ctx, desc string, r rule.Rule, inputSize int) {
 			c.Nontrivial()
 		}
 	})
+}
+
+func deref(r rule.Rule) interface{} {
+	switch v := r.(type) {
+	case *rule.SyscallRule:
+		if v != nil {
+			return *v
+		}
+	case *rule.FileWatchRule:
+		if v != nil {
+			return *v
+		}
+	case *rule.DeleteAllRule:
+		if v != nil {
+			return *v
+		}
+	}
+	return r
 }
 
 func c13Structs(c *enumx.Ctx) {
@@ -391,7 +419,69 @@ func checkBuildTotalInline(c *enumx.Ctx, line string, r rule.Rule) {
 	}
 }
 
+// c13SmallValues: numbers found in the input index tables inside the decoder (field
+// codes, operator codes, comparison codes, permission bits, file types, arches): every value
+// 0..600 in each word of the first three (field, value, flags) slots, and every known field
+// code in slot 0 combined with every value 0..80.
+func c13SmallValues(c *enumx.Ctx) {
+	rules := baseRules()
+	if c.Tier != "thorough" && len(rules) > 5 {
+		rules = append(rules[:3:3], rules[7], rules[11])
+	}
+	var codes []uint32
+	for _, d := range fieldDefine {
+		codes = append(codes, uapi(d))
+	}
+	codes = append(codes, uapi("AUDIT_FIELD_COMPARE"), 0, 24, 25, 26, 99, 114, 115, 204, 209, 211)
+	sort.Slice(codes, func(i, j int) bool { return codes[i] < codes[j] })
+	for ri, r := range rules {
+		for slot := 0; slot < 3; slot++ {
+			for _, base := range []int{offFields, offValues, offFieldFlags} {
+				for v := 0; v <= 600; v++ {
+					if !c.Mine() {
+						continue
+					}
+					m := append([]byte{}, r...)
+					binary.LittleEndian.PutUint32(m[base+4*slot:], uint32(v))
+					slot, base, v := slot, base, v
+					checkDecodeTotal(c, func() string { return fmt.Sprintf("rule#%d with word at offset %d = %d", ri, base+4*slot, v) }, m)
+				}
+			}
+			// operator codes: all 16 combinations of the four operator bits
+			for op := 0; op < 16; op++ {
+				if !c.Mine() {
+					continue
+				}
+				m := append([]byte{}, r...)
+				binary.LittleEndian.PutUint32(m[offFieldFlags+4*slot:], uint32(op)<<27)
+				slot, op := slot, op
+				checkDecodeTotal(c, func() string { return fmt.Sprintf("rule#%d with fieldflags[%d] = %#x", ri, slot, uint32(op)<<27) }, m)
+			}
+		}
+		for _, code := range codes {
+			for v := 0; v <= 80; v++ {
+				for _, op := range []uint32{uapi("AUDIT_EQUAL"), uapi("AUDIT_NOT_EQUAL")} {
+					if !c.Mine() {
+						continue
+					}
+					m := append([]byte{}, r...)
+					binary.LittleEndian.PutUint32(m[offFields:], code)
+					binary.LittleEndian.PutUint32(m[offValues:], uint32(v))
+					binary.LittleEndian.PutUint32(m[offFieldFlags:], op)
+					if d, _ := decodeWire(m); d != nil && d.FieldCount == 0 {
+						binary.LittleEndian.PutUint32(m[offFieldCount:], 1)
+					}
+					code, v := code, v
+					checkDecodeTotal(c, func() string { return fmt.Sprintf("rule#%d with field[0]=%d value[0]=%d", ri, code, v) }, m)
+				}
+			}
+		}
+	}
+	c.Sample("ToCommandLine(rule with field[0]=AUDIT_FIELD_COMPARE(111) value[0]=26) must be text or an error")
+}
+
 func init() {
+	gens["c13-smallvalues"] = c13SmallValues
 	gens["c13-structs"] = c13Structs
 	gens["c13-bytes"] = c13Bytes
 	gens["c13-lines"] = c13Lines
